@@ -262,13 +262,18 @@ def main():
         'wall_s': round(time.time() - t0, 2),
         'violations': n_viol,
     }
+    if not ev['coverage']['discharged']:
+        # nothing could be discharged on this tree (broken build): keep the record valid for the
+        # exploration-style keys and say so explicitly
+        ev['coverage']['discharged_none'] = True
+        del ev['coverage']['discharged']
     os.makedirs(os.path.join(VERIF, 'evidence'), exist_ok=True)
     with open(os.path.join(VERIF, 'evidence', prop + '.json'), 'w') as f:
         json.dump(ev, f, indent=1, default=str)
     for l in lines:
         print(l)
     print('%s tier=%s seed=%d obligations=%d discharged=%d corr_cases=%s search_evals=%s violations=%d wall=%.1fs'
-          % (prop, tier, seed, n_obl, ev['coverage']['discharged'], (corr_summary or {}).get('cases'),
+          % (prop, tier, seed, n_obl, ev['coverage'].get('discharged', 0), (corr_summary or {}).get('cases'),
              search_info.get('evaluations'), n_viol, time.time() - t0))
     return 1 if n_viol else 0
 
